@@ -25,12 +25,27 @@ Print Assumptions C20_ttl_aged_never_increased.
 Theorem C20_never_stale : forall cfg evs st os k op now delay u st' r,
   cfg_ok cfg ->
   run cfg state_init evs = Ok (st, os) ->
+  ~ lookup_failed cfg st k ->
   step cfg st (EQuery k op now delay u) = Ok (st', OServed r) ->
   exists k0 t0 u0,
     logged evs os (k0, t0, u0) /\ same_question k0 k /\ derives u0 r /\
-    fresh_by_class cfg (now - t0) r.
+    fresh_by_class cfg (now - t0) u0 r.
 Proof. exact never_stale. Qed.
 Print Assumptions C20_never_stale.
+
+Theorem C20_never_stale_refuted : strip_failure_is_miss = false ->
+  validity config_default witness_stale_bad = Ok 60 /\
+  exists st os st',
+    run config_default state_init witness_stale = Ok (st, os) /\
+    lookup_failed config_default st (key_of_request 1 1 1 true false false false) /\
+    step config_default st witness_stale_query = Ok (st', OServed (RErr parse_error)).
+Proof. exact never_stale_refuted. Qed.
+Print Assumptions C20_never_stale_refuted.
+
+Theorem C20_lookup_failed_only_before_fix : forall cfg evs st os k,
+  strip_failure_is_miss = true -> run cfg state_init evs = Ok (st, os) -> ~ lookup_failed cfg st k.
+Proof. exact lookup_failed_only_before_fix. Qed.
+Print Assumptions C20_lookup_failed_only_before_fix.
 
 Theorem C20_expired_entry_not_served : forall v now,
   v_valid v * 1000 < now - v_created v -> get_response v now = None.
@@ -47,6 +62,10 @@ Theorem C20_decrement_no_underflow_no_panic : forall cfg evs,
   Forall ev_ok evs -> exists os, c20_run cfg evs = Ok os.
 Proof. exact no_panic_all_histories. Qed.
 Print Assumptions C20_decrement_no_underflow_no_panic.
+
+Theorem C20_no_panic_unconditional : forall cfg evs, exists os, c20_run cfg evs = Ok os.
+Proof. exact no_panic_unconditional. Qed.
+Print Assumptions C20_no_panic_unconditional.
 
 Theorem C20_no_panic_refuted : classify_expects_question = true ->
   ~ Forall ev_ok witness_no_question /\ c20_run config_default witness_no_question = Panic 1.
